@@ -42,11 +42,21 @@ Theorem c09_endpoint_verdict_in_table : forall c e cs v (Hm : marks_ok c = true)
   wfp v p -> entry_mark_ok c p = true ->
   ok_result ec c (expected ec (e_sets e) tiers profiles p) p
     (run (S (S (S f))) cs e (endpoint_rules ec c tiers profiles) p) = true.
-Proof.
-  intros c e cs v Hm ec f tiers profiles p Ht. apply (endpoint_exact c e cs v Hm ec); [|exact Ht].
-  unfold is_normal. rewrite Ht. reflexivity.
-Qed.
+Proof. exact endpoint_verdict_in_table. Qed.
 Print Assumptions c09_endpoint_verdict_in_table.
+
+(* FORWARD CHAINS of host endpoints (chainTypeForward: no profiles): allowed outright when no tier applies to
+   forwarded traffic, otherwise the first tier that allows or denies decides; when every tier passes the chain
+   ends without a verdict, accept mark clear (`expected` for TForward). *)
+Theorem c09_forward_verdict : forall c e ec v name tiers profiles f p,
+  marks_ok c = true -> ec_type ec = TForward ->
+  NoDup (map fst (render_endpoint ec c v name tiers profiles)) ->
+  (forall r, In r (all_rules tiers profiles) -> rule_ok c e r) ->
+  wf_packet p -> pk_ver p = v -> entry_mark_ok c p = true ->
+  ok_result ec c (expected ec (e_sets e) tiers profiles p) p
+    (run_chain (3 + f) (render_endpoint ec c v name tiers profiles) e name p) = true.
+Proof. exact forward_verdict_model. Qed.
+Print Assumptions c09_forward_verdict.
 
 (* rule_ok is C08's theorem: for the repaired renderer for every rule of C08's domain ... *)
 Theorem c09_rule_ok_fixed : forall c e r,
@@ -86,9 +96,7 @@ Theorem c09_stride_placement_ok :
   /\ (forall n k, any_stride_first n k = true -> k = 0%nat \/ any_stride_ret n k = true)
   /\ (forall c pols, group_body c pols = group_rules_gen stride_ret stride_first c 0 pols)
   /\ (forall c pols, group_body c pols = group_rules_gen (any_stride_ret 5) (any_stride_first 5) c 0 pols).
-Proof.
-  split; [exact stride_first_ok|]. split; [exact any_stride_ok|]. split; reflexivity.
-Qed.
+Proof. exact stride_placement_ok. Qed.
 Print Assumptions c09_stride_placement_ok.
 
 (* STAGED POLICIES ARE INERT.  Removing every staged policy from the endpoint description (drop_staged) changes
@@ -98,13 +106,13 @@ Print Assumptions c09_stride_placement_ok.
 Theorem c09_staged_inert : forall ec c v name tiers profiles,
   render_endpoint ec c v name (map drop_staged tiers) profiles = render_endpoint ec c v name tiers profiles
   /\ forall s p, ref_verdict s (map drop_staged tiers) profiles p = ref_verdict s tiers profiles p.
-Proof. intros. split; [apply staged_inert_render|intros; apply staged_inert_ref]. Qed.
+Proof. exact staged_inert. Qed.
 Print Assumptions c09_staged_inert.
 
 (* a policy group chain is rendered from the group's enforced policies only *)
 Theorem c09_group_chain_ignores_staged : forall c pols,
   group_body c pols = group_body c (nonstaged pols).
-Proof. intros. apply group_rules_nonstaged. Qed.
+Proof. exact group_chain_ignores_staged. Qed.
 Print Assumptions c09_group_chain_ignores_staged.
 
 (* THE CODE AS PINNED violates the property when a profile holds a Pass rule: the endpoint chain jumps to profile
@@ -124,6 +132,18 @@ Theorem c09_profile_pass_refuted_unfixed :
          (run_chain 4 (render_endpoint ec c (pk_ver p) "ep" tiers profiles) e "ep" p) = false.
 Proof. exact profile_pass_refuted_unfixed. Qed.
 Print Assumptions c09_profile_pass_refuted_unfixed.
+
+(* THE ENTRY HYPOTHESIS IS NEEDED.  The endpoint chain clears the accept and pass marks but never the drop mark
+   (nor does any static chain: allCalicoMarkBits() leaves MarkDrop out), and a Deny rule renders as "if match: set
+   drop mark" + "if drop mark set: DROP".  A packet that arrives with the drop mark set is dropped by the first
+   Deny rule it reaches whether or not that rule matches.  Witness: policy [deny udp; allow], TCP packet. *)
+Theorem c09_entry_drop_mark_necessary :
+  exists c e ec tiers p,
+    marks_ok c = true /\ ec_type ec = TNormal /\ wf_packet p /\ entry_mark_ok c p = false
+    /\ ref_verdict (e_sets e) tiers [] p = VAllow
+    /\ (exists p', run_chain 4 (render_endpoint ec c (pk_ver p) "ep" tiers []) e "ep" p = RDone FDrop p').
+Proof. exact entry_drop_mark_necessary. Qed.
+Print Assumptions c09_entry_drop_mark_necessary.
 
 (* the hypotheses of the main theorem are satisfiable by a non-trivial endpoint: the witness above with the fix *)
 Example c09_endpoint_verdict_hyps_satisfiable :
